@@ -36,13 +36,24 @@ impl From<AuthenticationParameter> for u8 {
     }
 }
 
+impl AuthenticationParameter {
+    /// Parse the control byte of an authentication request, returns `None` if the value is not
+    /// one defined by the specification.
+    pub fn from_control_byte(src: u8) -> Option<Self> {
+        match src {
+            0x07 => Some(AuthenticationParameter::CheckOnly),
+            0x03 => Some(AuthenticationParameter::EnforceUserPresence),
+            0x08 => Some(AuthenticationParameter::DontEnforceUserPresence),
+            _ => None,
+        }
+    }
+}
+
 impl From<u8> for AuthenticationParameter {
     fn from(src: u8) -> Self {
-        match src {
-            0x07 => AuthenticationParameter::CheckOnly,
-            0x03 => AuthenticationParameter::EnforceUserPresence,
-            0x08 => AuthenticationParameter::DontEnforceUserPresence,
-            _ => unreachable!("U2F Authentication parameter which is not in the spec"),
+        match Self::from_control_byte(src) {
+            Some(parameter) => parameter,
+            None => unreachable!("U2F Authentication parameter which is not in the spec"),
         }
     }
 }
@@ -77,14 +88,21 @@ impl AuthenticationRequest {
         data: &[u8],
         parameter: impl Into<AuthenticationParameter>,
     ) -> Result<Self, TryFromSliceError> {
-        let (challenge, data) = data.split_at(32);
-        let (application, data) = data.split_at(32);
-        let (handle_len, data) = data.split_at(1);
-        let key_handle = data[..handle_len[0] as usize].to_vec();
+        // Missing parts are converted from an empty slice, which surfaces as a `TryFromSliceError`.
+        let challenge = data.get(..32).unwrap_or_default().try_into()?;
+        let application = data.get(32..64).unwrap_or_default().try_into()?;
+        let [handle_len]: [u8; 1] = data.get(64..65).unwrap_or_default().try_into()?;
+        let data = data.get(65..).unwrap_or_default();
+        let key_handle = match data.get(..handle_len as usize) {
+            Some(key_handle) => key_handle.to_vec(),
+            // The key handle is shorter than declared. The declared length is at most 255, so
+            // converting what is left to a longer array fails with the error this method returns.
+            None => <[u8; 256]>::try_from(data)?.to_vec(),
+        };
         Ok(Self {
             parameter: parameter.into(),
-            challenge: challenge.try_into()?,
-            application: application.try_into()?,
+            challenge,
+            application,
             key_handle,
         })
     }
